@@ -5,7 +5,8 @@ use super::PropResult;
 use crate::core::*;
 use crate::model::calendar as cal;
 use crate::model::instant::*;
-use astrolabe::{Date, DateTime, DateUtilities, Offset, OffsetUtilities, Time, TimeUtilities};
+use super::diff::*;
+use astrolabe::{Date, DateTime, DateUtilities, TimeUtilities};
 use serde_json::json;
 use std::cmp::Ordering;
 
@@ -37,24 +38,46 @@ fn judge_ts(rec: &mut Rec, ts: i64) {
     rec.api("DateTime::from_timestamp");
     let r = trap(|| {
         let dt = DateTime::from_timestamp(ts);
-        (dt.timestamp(), dt.as_ymdhms(), dt.nano(), read(&dt))
+        (dt.timestamp(), dt.as_ymdhms(), dt.nano(), read(&dt), dt)
     });
     match (r, in_range) {
-        (Ok((back, f, ns, inst)), true) => {
+        (Ok((back, f, ns, inst, dt)), true) => {
             rec.outcome("value");
             let model_i = (ts as i128 + cal::DAYS_TO_1970 as i128 * 86_400) * NS;
             let mf = fields(model_i);
             if back != ts {
                 rec.violation(format!("C03|ts|DateTime::from_timestamp→timestamp|roundtrip-mismatch|{}", cls), || json!({"timestamp": ts, "back": back}));
-            } else if (f.0 as i64, f.1, f.2, f.3, f.4, f.5) != (mf.year, mf.month, mf.dom, mf.hour, mf.minute, mf.second) || ns != 0 {
-                rec.violation(format!("C03|ts|DateTime::from_timestamp|wrong-fields|{}", cls), || {
-                    json!({"timestamp": ts, "expected": show(model_i), "observed_ymdhms": [f.0 as i64, f.1 as i64, f.2 as i64, f.3 as i64, f.4 as i64, f.5 as i64], "nano": ns})
-                });
-            } else if inst != model_i {
-                rec.violation(format!("C03|ts|DateTime::nanos_since(0001-01-01)|wrong-instant|{}", cls), || json!({"timestamp": ts, "expected_instant": model_i.to_string(), "observed": inst.to_string()}));
+            }
+            // the time line is linear: the order of the values is the order of their timestamps
+            for other in [ts.saturating_sub(1), ts.saturating_add(1), ts.saturating_sub(86_400), ts.saturating_add(86_400), 0, ts.div_euclid(86_400) * 86_400] {
+                if !(MIN_TS..=MAX_TS).contains(&other) {
+                    continue;
+                }
+                let exp = ts.cmp(&other);
+                match trap(|| {
+                    let o = DateTime::from_timestamp(other);
+                    (dt.cmp(&o), dt == o)
+                }) {
+                    Ok((c, eq)) => {
+                        if c != exp || eq != (exp == Ordering::Equal) {
+                            rec.violation(format!("C03|ts|DateTime::from_timestamp|order-of-values-is-not-order-of-timestamps|{}", cls), || {
+                                json!({"timestamp_a": ts, "timestamp_b": other, "model_cmp": ord_name(exp), "observed_cmp": ord_name(c), "observed_eq": eq})
+                            });
+                            break;
+                        }
+                    }
+                    Err(_) => {} // judged when `other` is itself the case
+                }
+            }
+            // not this property's claim (calendar fields: C01; differences: C06) — recorded only
+            if (f.0 as i64, f.1, f.2, f.3, f.4, f.5) != (mf.year, mf.month, mf.dom, mf.hour, mf.minute, mf.second) || ns != 0 {
+                rec.bin("note/as_ymdhms-differs-from-model(other-property)");
+            }
+            if inst != model_i {
+                rec.bin("note/nanos_since-differs-from-model(other-property)");
             }
         }
-        (Ok((back, f, _, _)), false) => {
+        (Ok((back, f, _, _, _)), false) => {
             rec.outcome("value");
             rec.violation(format!("C03|ts|DateTime::from_timestamp|returned-out-of-range|{}", cls), || {
                 json!({"timestamp": ts, "valid_range": [MIN_TS, MAX_TS], "returned_timestamp": back, "ymdhms": [f.0 as i64, f.1 as i64, f.2 as i64, f.3 as i64, f.4 as i64, f.5 as i64]})
@@ -78,8 +101,25 @@ fn judge_ts(rec: &mut Rec, ts: i64) {
             let e = cal::ymd(ts.div_euclid(86_400) + cal::DAYS_TO_1970);
             if back != exp {
                 rec.violation(format!("C03|ts|Date::from_timestamp→timestamp|not-floored-to-day|{}", cls), || json!({"timestamp": ts, "expected": exp, "observed": back}));
-            } else if (ymd.0 as i64, ymd.1, ymd.2) != e {
-                rec.violation(format!("C03|ts|Date::from_timestamp|wrong-date|{}", cls), || json!({"timestamp": ts, "expected": [e.0, e.1, e.2], "observed": [ymd.0, ymd.1, ymd.2]}));
+            }
+            if (ymd.0 as i64, ymd.1, ymd.2) != e {
+                rec.bin("note/as_ymd-differs-from-model(other-property)");
+            }
+            // Date order is day order
+            for other in [ts.saturating_sub(86_400), ts.saturating_add(86_400), 0, ts.div_euclid(86_400) * 86_400, ts.div_euclid(86_400) * 86_400 - 1] {
+                if !(MIN_TS..=MAX_TS).contains(&other) {
+                    continue;
+                }
+                let expo = ts.div_euclid(86_400).cmp(&other.div_euclid(86_400));
+                if let Ok((c, eq)) = trap(|| {
+                    let (a, b) = (Date::from_timestamp(ts), Date::from_timestamp(other));
+                    (a.cmp(&b), a == b)
+                }) {
+                    if c != expo || eq != (expo == Ordering::Equal) {
+                        rec.violation(format!("C03|ts|Date::from_timestamp|order-of-values-is-not-day-order-of-timestamps|{}", cls), || json!({"timestamp_a": ts, "timestamp_b": other, "model_cmp": ord_name(expo), "observed_cmp": ord_name(c), "observed_eq": eq}));
+                        break;
+                    }
+                }
             }
         }
         (Ok((back, _)), false) => rec.violation(format!("C03|ts|Date::from_timestamp|returned-out-of-range|{}", cls), || json!({"timestamp": ts, "returned_timestamp": back})),
@@ -142,9 +182,11 @@ fn judge_pair(rec: &mut Rec, p: &Pair) {
         rec.bin("pair/different-offsets");
     }
     let exp = p.i.cmp(&p.j);
+    let (Some((a, _)), Some((b, _))) = (sane_value(p.i, p.o1), sane_value(p.j, p.o2)) else {
+        rec.bin(SKIP_START);
+        return;
+    };
     let r = trap(|| {
-        let a = mk_off(p.i, p.o1);
-        let b = mk_off(p.j, p.o2);
         let sinces: [(&'static str, i128); 9] = [
             ("nanos_since", a.nanos_since(&b)),
             ("micros_since", a.micros_since(&b)),
@@ -156,19 +198,13 @@ fn judge_pair(rec: &mut Rec, p: &Pair) {
             ("months_since", a.months_since(&b) as i128),
             ("years_since", a.years_since(&b) as i128),
         ];
-        (a == b, a.cmp(&b), a.partial_cmp(&b), a < b, a > b, b.cmp(&a), sinces, read(&a), read(&b), a.timestamp(), b.timestamp())
+        (a == b, a.cmp(&b), a.partial_cmp(&b), a < b, a > b, b.cmp(&a), sinces)
     });
     rec.api("DateTime::cmp/eq");
     let wit = |obs: serde_json::Value| json!({"a": {"instant": show(p.i), "offset": p.o1}, "b": {"instant": show(p.j), "offset": p.o2}, "class": p.class, "model_cmp": ord_name(exp), "observed": obs});
     match r {
         Err(pn) => rec.violation(format!("C03|pairs|DateTime cmp/since|panic|{},{}", pn.class, pn.site()), || wit(pn.to_json())),
-        Ok((eq, c, pc, lt, gt, rc, sinces, ia, ib, tsa, tsb)) => {
-            if ia != p.i || ib != p.j {
-                rec.violation("C03|pairs|set_offset|instant-changed".to_string(), || wit(json!({"read_a": ia.to_string(), "read_b": ib.to_string()})));
-            }
-            if tsa as i128 != p.i.div_euclid(NS) - cal::DAYS_TO_1970 as i128 * 86_400 || tsb as i128 != p.j.div_euclid(NS) - cal::DAYS_TO_1970 as i128 * 86_400 {
-                rec.violation(format!("C03|pairs|DateTime::timestamp|wrong-with-offset|{}", p.class), || wit(json!({"ts_a": tsa, "ts_b": tsb})));
-            }
+        Ok((eq, c, pc, lt, gt, rc, sinces)) => {
             let consistent = eq == (exp == Ordering::Equal) && c == exp && pc == Some(exp) && lt == (exp == Ordering::Less) && gt == (exp == Ordering::Greater) && rc == exp.reverse();
             if !consistent {
                 rec.violation(format!("C03|pairs|DateTime ==/cmp|disagrees-with-instants|{},model={}", p.class, ord_name(exp)), || {
@@ -194,9 +230,11 @@ fn judge_date_pair(rec: &mut Rec, d1: i64, d2: i64) {
     let exp = d1.cmp(&d2);
     rec.bin(if d1 == d2 { "datepair/equal" } else if (d1 < 0) != (d2 < 0) { "datepair/straddles-era" } else { "datepair/other" });
     rec.nontrivial(hash_i128s(&[d1 as i128, d2 as i128, 77]));
+    let (Some(a), Some(b)) = (sane_date(d1), sane_date(d2)) else {
+        rec.bin(SKIP_START);
+        return;
+    };
     let r = trap(|| {
-        let a = Date::from_timestamp((d1 - cal::DAYS_TO_1970) * 86_400);
-        let b = Date::from_timestamp((d2 - cal::DAYS_TO_1970) * 86_400);
         (a == b, a.cmp(&b), a < b, a.days_since(&b) as i128, a.months_since(&b) as i128, a.years_since(&b) as i128)
     });
     let wit = |obs: serde_json::Value| {
@@ -224,9 +262,11 @@ fn judge_time_pair(rec: &mut Rec, n1: u64, n2: u64, o1: i32, o2: i32) {
     let exp = n1.cmp(&n2);
     rec.bin(if n1 == n2 { "timepair/equal" } else { "timepair/other" });
     rec.nontrivial(hash_i128s(&[n1 as i128, n2 as i128, o1 as i128, o2 as i128, 99]));
+    let (Some((a, _)), Some((b, _))) = (sane_time(n1, o1), sane_time(n2, o2)) else {
+        rec.bin(SKIP_START);
+        return;
+    };
     let r = trap(|| {
-        let a = Time::from_nanos(n1).unwrap().set_offset(Offset::Fixed(o1));
-        let b = Time::from_nanos(n2).unwrap().set_offset(Offset::Fixed(o2));
         let s: [(&'static str, i128); 6] = [
             ("nanos_since", a.nanos_since(&b) as i128),
             ("micros_since", a.micros_since(&b) as i128),
@@ -235,15 +275,12 @@ fn judge_time_pair(rec: &mut Rec, n1: u64, n2: u64, o1: i32, o2: i32) {
             ("minutes_since", a.minutes_since(&b) as i128),
             ("hours_since", a.hours_since(&b) as i128),
         ];
-        (a == b, a.cmp(&b), a < b, s, a.as_nanos(), b.as_nanos())
+        (a == b, a.cmp(&b), a < b, s)
     });
     let wit = |obs: serde_json::Value| json!({"a_nanos": n1, "a_offset": o1, "b_nanos": n2, "b_offset": o2, "model_cmp": ord_name(exp), "observed": obs});
     match r {
         Err(p) => rec.violation(format!("C03|timepairs|Time cmp/since|panic|{},{}", p.class, p.site()), || wit(p.to_json())),
-        Ok((eq, c, lt, s, an, bn)) => {
-            if an != n1 || bn != n2 {
-                rec.violation("C03|timepairs|Time::set_offset|as_nanos-changed".to_string(), || wit(json!({"a": an, "b": bn})));
-            }
+        Ok((eq, c, lt, s)) => {
             if eq != (exp == Ordering::Equal) || c != exp || lt != (exp == Ordering::Less) {
                 rec.violation(format!("C03|timepairs|Time ==/cmp|disagrees-with-as_nanos-order|model={}", ord_name(exp)), || wit(json!({"eq": eq, "cmp": ord_name(c)})));
             }
@@ -321,7 +358,7 @@ pub fn run(ctx: &Ctx) -> PropResult {
     }));
     let out = run_workloads(ctx, wls);
     let mut meta = PropMeta::default();
-    meta.rule = "timestamps: boundary list (range edges ±3 d ±{0,1,2,86399..86401}, 0, 0001-01-01, i64::MIN/MAX, powers of two) + stratified random i64; in range ⇒ DateTime round trip, Date floor-to-day, fields and nanos_since(0001-01-01) equal the model; out of range ⇒ must panic. pairs: instants (8 strata) x delta (0, ±1 ns, sub-second, k units ± few ns, days, 2^62 ns, uniform) x two independent offsets from the whole ±86399 s range; ==, cmp, partial_cmp, <, >, reverse cmp and the sign of all nine *_since compared with the i128 model instants; Date pairs (day order) and Time pairs (as_nanos order) likewise. Non-trivial = any timestamp not in the plain positive class; any pair that is not both far apart and same-offset. Distinct by input hash.".into();
+    meta.rule = "timestamps: boundary list (range edges ±3 d ±{0,1,2,86399..86401}, 0, 0001-01-01, i64::MIN/MAX, powers of two) + stratified random i64; in range ⇒ DateTime round trip, Date floor-to-day, and the order (cmp, ==) of the value against the values of ts±1, ts±86400, 0 and the day start is the order of the timestamps (as_ymdhms / nanos_since deviations from the model are only noted: other properties own them); out of range ⇒ must panic. pairs: instants (8 strata) x delta (0, ±1 ns, sub-second, k units ± few ns, days, 2^62 ns, uniform) x two independent offsets from the whole ±86399 s range; ==, cmp, partial_cmp, <, >, reverse cmp and the sign of all nine *_since compared with the i128 model instants (inputs are used only where every read-out route agrees with the model, so that a constructor/read-out defect owned by another property skips the case instead of failing it); Date pairs (day order) and Time pairs (as_nanos order) likewise. Non-trivial = any timestamp not in the plain positive class; any pair that is not both far apart and same-offset. Distinct by input hash.".into();
     meta.required_bins = vec![
         "ts/out-low", "ts/out-high", "ts/in-range-edge", "ts/neg-non-aligned", "ts/neg-day-aligned", "ts/pos", "anchor/1970-01-01=0",
         "pair/equal-instant", "pair/straddles-0001-01-01", "pair/sub-second", "pair/same-day", "pair/straddles-midnight-within-24h", "pair/far", "pair/different-offsets",
